@@ -6,6 +6,11 @@ def run(ctx):
     quick = ctx.tier == "quick"
     b = ctx.go_test_binary("store", "h_store")
     if b:
+        # separate pass in which the two known findings are REPORTED by the oracle (sigs listed in
+        # findings/known_findings.txt -> KNOWN-FINDING lines); the main pass only counts them so
+        # that its stream comparison stays strict
+        ctx.correspond(b, "TestVerifC16Known", "svdriver_c16", "c16known",
+                       env={"VERIF_N": 40 if quick else 300}, timeout=900)
         if quick:
             ctx.correspond(b, "TestVerifC16", "svdriver_c16", "c16",
                            env={"VERIF_N": 150, "VERIF_RACE": 8}, timeout=900)
@@ -17,6 +22,12 @@ def run(ctx):
                 ctx.correspond(b, "TestVerifC16", "svdriver_c16", f"c16_{k}",
                                env={"VERIF_SEED": base * 1000 + k if k else base,
                                     "VERIF_N": 400, "VERIF_RACE": 25}, timeout=1800)
+    ctx.notes.append("observation (not a clause of C16): LayerManager.release calls refPool.release before it checks "
+                     "that (ref, layer) is tracked, so releasing an untracked layer of an image in use drops the "
+                     "refPool count of that image (model: example in SV/Props/C16.lean; seen in the snapshots)")
+    ctx.notes.append("observation (not a clause of C16): getLayer's per-layer workers that find the wanted layer after it "
+                     "was delivered stay parked for ever on `resultChan <- gotL` (goroutine leak), and workers can still "
+                     "run after getLayer returned; the harness waits for them by inspecting goroutine stacks")
     return ctx.finish(
         level="proof",
         rule="hand-written scenarios (lookup/use/release/lookup, sibling in use, release twice, release untracked, "
